@@ -388,7 +388,17 @@ func (c *fsClient) nameEq(st *State, a, b *Term) int {
 				continue
 			}
 			for _, side := range t.Args {
-				if side.Op == "draw" && side.Args[0] == m && c.loopDone(st, side.Args[1]) {
+				// an instance, possibly of an instance (a list built from the
+				// elements of another list by a completed loop), of m
+				base, done := side, true
+				for base.Op == "draw" && base != m {
+					if !c.loopDone(st, base.Args[1]) {
+						done = false
+						break
+					}
+					base = base.Args[0]
+				}
+				if side.Op == "draw" && done && base == m && side != m {
 					if r := st.truth(tEq(side, o)); r >= 0 {
 						return r
 					}
@@ -458,6 +468,14 @@ func stackElemOfName(n *Term) (*Term, bool) {
 // listedIn: is name a member of list l?  1 yes, 0 no, -1 cannot tell.
 func (c *fsClient) listedIn(st *State, name *Term, l *Term) int {
 	res := 0
+	if os.Getenv("RSA_DEBUG") == "19" && name.containsOp("direntname") {
+		fmt.Fprintf(os.Stderr, "LISTEDIN name=%s\n  list=%s\n", name.key, l.key)
+		for _, k := range sortedFactKeys(st) {
+			if strings.Contains(k, "direntname") && strings.HasPrefix(k, "eq") {
+				fmt.Fprintf(os.Stderr, "  fact %s = %v\n", k, st.facts[k])
+			}
+		}
+	}
 	for _, m := range listMembers(l) {
 		if m.Op == "anyelem" {
 			return -1
@@ -687,6 +705,9 @@ func (c *fsClient) Call(x *Exec, st *State, fr *Frame, site ssa.CallInstruction,
 		}
 		return ret(mk("pathjoin", "", nil, es...))
 	case "strings.Join":
+		if l := args[0]; l.Op == "fam" || (l.Op == "subslice" && l.Args[0].Op != "list") {
+			return ret(mk("strjoin", "", nil, tList(false, x.membersOf(st, fr, siteID(fr, site), l)), args[1]))
+		}
 		return ret(mk("strjoin", "", nil, args[0], args[1]))
 	case "strings.HasSuffix", "strings.HasPrefix":
 		return ret(mk("pure", name, types.Typ[types.Bool], args...))
@@ -1332,9 +1353,14 @@ func (c *fsClient) checkContent(st *State, fr *Frame, pos token.Pos, list *Term,
 			}
 		}
 	}
+	if compaction && nOld == 0 {
+		// nothing is kept (the range is the whole stack): the partition holds trivially
+		c.okay("LIST-CONTENT", role+" / range partition", "kept tables lie in [0,first) and (last,len)")
+	}
 	if !compaction {
 		// addition: all of the validated stack must be kept
-		if cur != nil && nOld == 0 && !(cur.Op == "list" && len(cur.Args) == 0) {
+		knownEmpty := cur != nil && st.truth(tLt(tConst("0", nil), mk("len", "", nil, cur))) == 0
+		if cur != nil && nOld == 0 && !(cur.Op == "list" && len(cur.Args) == 0) && !knownEmpty {
 			c.violate(st, "LIST-CONTENT", role+" / old tables kept", pos, "the new list does not contain the names of the validated stack")
 		} else {
 			c.okay("LIST-CONTENT", role+" / old tables kept", "list = names of the validated stack + new tables")
